@@ -1,9 +1,9 @@
 package main
 
 import (
-	"os"
 	"fmt"
 	"go/types"
+	"os"
 	"regexp"
 	"sort"
 	"strings"
@@ -113,6 +113,7 @@ func (x *X) callStatic(f *ssa.Function, args []Val, free []Val, in ssa.Instructi
 				sort.Strings(ks)
 				fmt.Fprintln(os.Stderr, "abstracted", name, "all:", w.all, "alloc:", w.alloc, ks)
 			}
+			x.externs["call of "+name+" abstracted to its static write set (result and written heap unknown) in "+x.curFn] = true
 			x.havocWrites(x.fnWrites(f), "call of "+name+" (abstracted)")
 			return x.freshVal(resultType(f.Signature), sanitize(f.Name()))
 		}
@@ -206,6 +207,10 @@ func (x *X) opaqueApp(f *ssa.Function, args []Val) Val {
 			if fs := x.specs.Funcs[name]; fs != nil {
 				reads = fs.Reads
 			}
+		}
+		if len(reads) == 0 {
+			// no clause: what the static may-read analysis finds (nil = the whole heap)
+			reads = x.derivedReads(f)
 		}
 		ver := x.heapVersionFor(reads)
 		flat = append(flat, fmt.Sprint(ver))
